@@ -1047,7 +1047,8 @@ def expected_reentries(tree, case, outcomes, G, root_has_stubs=False):
     """packages alias resolution / wildcard expansion must ask for, each as often as it is asked for: the algorithm of
     _load_package / _post_load / resolve_aliases / expand_wildcards / resolve_module_aliases replayed over the dependency
     declarations of the layout, with the gates of Gen/C15_ladder.v (a wildcard source that fails to load is asked for again
-    by every later expansion pass; an alias target that fails is remembered)"""
+    by every later expansion pass -- the sweep repeats until neither the collection nor the number of unexpanded wildcard imports
+    changes, and runs again after every iteration that resolved an alias or loaded a package; an alias target that fails is remembered)"""
     o = case["opts"]
     ext, implicit = o["resolve_external"], o["resolve_implicit"]
     deps = {p["name"]: p["deps"] for p in tree["pkgs"] if p["kind"] != "stubsonly"}
@@ -1092,10 +1093,13 @@ def expected_reentries(tree, case, outcomes, G, root_has_stubs=False):
             raise Abort     # not swallowed: resolution stops here
         return False
 
-    def expand_all():
-        n = -1
-        while n != len(coll):
-            n = len(coll)
+    def wildcards_left():
+        return sum(1 for m in coll for d in visible_deps(m) if d["wild"] and (m, d["target"]) not in expanded)
+
+    def expand_all():       # repeated until no package gets loaded and no wildcard import gets expanded any more
+        state = None
+        while state != (len(coll), wildcards_left()):
+            state = (len(coll), wildcards_left())
             for m in list(coll):
                 expand(m, ext, set())
     try:
@@ -1120,7 +1124,7 @@ def expected_reentries(tree, case, outcomes, G, root_has_stubs=False):
                         if G[(ext, int(t == "_" + pkg), int(t in failed), int(t == pkg), 0)][0] and not request(t):
                             failed.add(t)
                 progress = now or len(coll) != n
-                if len(coll) != n:
+                if progress:      # also after an iteration that only resolved aliases
                     expand_all()
     except Abort:
         pass
